@@ -182,7 +182,16 @@ class PerturbationCase(Case):
         raw = cfg.gradient.model_copy(update={"perturbation_magnitudes": env.arr(inp["m"], False), "perturbation_types": types})
         once = raw.fix_perturbations(cfg.variables, None)
         twice = once.fix_perturbations(cfg.variables, None)   # what re-validating a validated/dumped configuration does
-        return {"once": once, "twice": twice}
+        # the section object that was handed in is frozen: it is not rewritten, and it serves a second configuration
+        # (other bounds) exactly like the first
+        raw_after = {"m": raw.perturbation_magnitudes, "types": [int(t) for t in np.asarray(raw.perturbation_types).ravel()],
+                     "types_before": [int(t) for t in types]}
+        cfg2 = clone_config(self.cfg0)
+        lo2 = np.array([x - 1 for x in inp["lo"]], dtype=object)
+        hi2 = np.array([x + 2 for x in inp["hi"]], dtype=object)
+        inject(cfg2.variables, lower_bounds=env.arr(lo2, False), upper_bounds=env.arr(hi2, False))
+        other = raw.fix_perturbations(cfg2.variables, None)
+        return {"once": once, "twice": twice, "raw_after": raw_after, "other": other}
 
     def props(self, env, inp, oc):
         if not oc.ok:
@@ -195,6 +204,14 @@ class PerturbationCase(Case):
             exp = inp["m"][j] if self.ptypes[j] == "absolute" else (inp["hi"][j] - inp["lo"][j]) * inp["m"][j]
             props.append((f"v{j}.canonical_magnitude", close(m1[j], exp)))
             props.append((f"v{j}.revalidation_keeps_magnitude", close(m2[j], m1[j])))
+        ra = oc.value["raw_after"]
+        mr = np.asarray(vals(ra["m"]), dtype=object)
+        m3 = np.asarray(vals(oc.value["other"].perturbation_magnitudes), dtype=object)
+        props.append(("given_section.types_not_rewritten", SB(ra["types"] == ra["types_before"])))
+        for j in range(self.N):
+            props.append((f"v{j}.given_section.magnitude_not_rewritten", SB(mr.shape == (self.N,)) if mr.shape != (self.N,) else exact(mr[j], inp["m"][j])))
+            exp2 = inp["m"][j] if self.ptypes[j] == "absolute" else (inp["hi"][j] - inp["lo"][j] + 3) * inp["m"][j]
+            props.append((f"v{j}.second_configuration.canonical_magnitude", close(m3[j], exp2)))
         for nm in ("perturbation_magnitudes", "boundary_types", "perturbation_types"):
             props.append((f"{nm}.write_protected", SB(not getattr(once, nm).flags.writeable)))
             props.append((f"{nm}.full_length", SB(getattr(once, nm).shape == (self.N,))))
